@@ -60,7 +60,7 @@ ADDED = {
 # second white-box round
 ADDED2 = {
     'C01': 'the untyped read_nth_shape / iter_shapes / read / read_shapes routes; single-ring constructors; more than 4096 parts; special measures on long parts; round 9: every written file also read through sources handing out 1..100 bytes per read call and through BufReaders of capacity 37 and 8191',
-    'C02': 'the complete Writer by path (over longer files too); the bulk call as the only call and handed nothing; part starts beyond vertex 2^16',
+    'C02': 'the complete Writer by path (over longer files too); the bulk call as the only call and handed nothing; part starts beyond vertex 2^16; round 10: in every 17th file a shape of another type is offered (and refused) between two accepted writes, the records must stay numbered 1..n',
     'C03': 'NaN in X / Y; record numbers i32::MAX / MIN; more than 1024 parts; a file without records followed by a stale record; the complete reader on every file',
     'C04': 'iteration after a random access at the last index; two finalizes in a row; 65537 records; read_nth_shape(usize::MAX); round 9: random access after k good steps and one typed step asking for another type',
     'C05': 'shapes of 17..40 parts; a finalize before the first write; the boxes of the geo-types constructors; round 10: every third file is written again through a destination whose one-shot failure hits the first operation of one write_shape (a shape with a vertex at +-1e305), the caller keeps writing and finalizes, and the header box must be that of the shapes an independent walk of the bytes finds',
